@@ -506,7 +506,7 @@ pub fn f4_case(idxs: &[usize]) -> SemCase {
 pub fn f8(tier: Tier) -> Vec<SemCase> {
     let mut v = Vec::new();
     // (statement, approximate size in bytes)
-    let stmts: Vec<(&str, usize)> = vec![("r++;", 2), ("r = 1;", 4), ("X++;", 1), ("c = c + 1;", 7), ("arr[X] = 1;", 4), ("asm(\"NOP\", 1);", 1), ("s++;", 6), ("arr[Y] = c;", 5), ("c = arr[Y];", 5), ("sarr[X] = s;", 8)];
+    let stmts: Vec<(&str, usize)> = vec![("r++;", 2), ("r = 1;", 4), ("X++;", 1), ("c = c + 1;", 7), ("arr[X] = 1;", 4), ("asm(\"NOP\", 1);", 1), ("s++;", 6), ("arr[Y] = c;", 5), ("c = arr[Y];", 5), ("sarr[X] = s;", 8), ("ib();", 6), ("ij();", 11)];
     let templates: Vec<(&str, &str)> = vec![
         ("if (a) {", "}"),
         ("if (a) {", "} else r = 7;"),
@@ -537,8 +537,9 @@ pub fn f8(tier: Tier) -> Vec<SemCase> {
         ("if (a) { r = 2; if (b) {", "} }"),
         ("do { if (a) { if (b) break;", "} r = 1; r = 1; r = 1; a--; } while (a);"),
     ];
-    let decl = "unsigned char a, b, c, r; short s; unsigned char arr[4]; short sarr[2];\n";
-    let decl_signed = "signed char a, b, c, r; short s; unsigned char arr[4]; short sarr[2];\n";
+    // inline functions copied into the caller: inline assembly with a declared size, a jump over the tail
+    let decl = "unsigned char a, b, c, r; short s; unsigned char arr[4]; short sarr[2];\ninline void ib() { asm(\".byte $EA,$EA,$EA,$EA,$EA,$EA\", 6); }\ninline void ij() { if (c) return; c = 3; }\n";
+    let decl_signed = "signed char a, b, c, r; short s; unsigned char arr[4]; short sarr[2];\ninline void ib() { asm(\".byte $EA,$EA,$EA,$EA,$EA,$EA\", 6); }\ninline void ij() { if (c) return; c = 3; }\n";
     let small: Vec<(&str, &[i32])> = vec![("a", &[0, 1, 2]), ("b", &[0, 1, 2]), ("c", &[0, 3]), ("r", &[0]), ("X", &[0, 1]), ("Y", &[0, 1]), ("s", &[0, 0xff])];
     for (pre, post) in &templates {
         for (st, sz) in &stmts {
